@@ -258,6 +258,55 @@ theorem linExpXYFit_anti {pw : K → K} (hp : PowLike pw) (hsub : ∀ t, 0 ≤ t
   rw [linExpXYFit_closed pw h.ne, linExpXYFit_closed pw h.ne]
   exact convex_anti_of_ge hy (blendXY_mono hp hsub (sOf_nonneg h h0) (sOf_mono h hx) (sOf_le_one h h1))
 
+/-! ### "moving from `p` towards `q`" -/
+
+/-- `u` comes no later than `v` on a monotone way from `p` to `q`:
+non-decreasing if `p ≤ q`, non-increasing if `q ≤ p` -/
+def Toward (p q u v : K) : Prop := (p ≤ q → u ≤ v) ∧ (q ≤ p → v ≤ u)
+
+theorem Toward.rfl' (p q u : K) : Toward p q u u := ⟨fun _ => le_rfl, fun _ => le_rfl⟩
+
+/-- `u` before the intermediate point `r`, `v` after it -/
+theorem toward_of_mem {p q r u v : K} (hr : r ∈ Set.uIcc p q) (hu : u ∈ Set.uIcc p r)
+    (hv : v ∈ Set.uIcc r q) : Toward p q u v := by
+  constructor
+  · intro h
+    rw [Set.uIcc_of_le h] at hr
+    rw [Set.uIcc_of_le hr.1] at hu
+    rw [Set.uIcc_of_le hr.2] at hv
+    exact le_trans hu.2 hv.1
+  · intro h
+    rw [Set.uIcc_of_ge h] at hr
+    rw [Set.uIcc_of_ge hr.2] at hu
+    rw [Set.uIcc_of_ge hr.1] at hv
+    exact le_trans hv.2 hu.1
+
+theorem Toward.of_left {p q r u v : K} (hr : r ∈ Set.uIcc p q) (h : Toward p r u v) :
+    Toward p q u v := by
+  constructor
+  · intro hpq; rw [Set.uIcc_of_le hpq] at hr; exact h.1 hr.1
+  · intro hpq; rw [Set.uIcc_of_ge hpq] at hr; exact h.2 hr.2
+
+theorem Toward.of_right {p q r u v : K} (hr : r ∈ Set.uIcc p q) (h : Toward r q u v) :
+    Toward p q u v := by
+  constructor
+  · intro hpq; rw [Set.uIcc_of_le hpq] at hr; exact h.1 hr.2
+  · intro hpq; rw [Set.uIcc_of_ge hpq] at hr; exact h.2 hr.1
+
+theorem linFit_toward {x x' x0 x1 : K} (y0 y1 : K) (h : x0 < x1) (hx : x ≤ x') :
+    Toward y0 y1 (linFit x (x0, y0) (x1, y1)) (linFit x' (x0, y0) (x1, y1)) :=
+  ⟨linFit_mono h hx, linFit_anti h hx⟩
+
+theorem expLinFit_toward {pw : K → K} (hp : PowLike pw) (hsub : ∀ t, 0 ≤ t → t ≤ 1 → pw t ≤ t)
+    {x x' x0 x1 : K} (y0 y1 : K) (h : x0 < x1) (h0 : x0 ≤ x) (hx : x ≤ x') (h1 : x' ≤ x1) :
+    Toward y0 y1 (expLinFit pw x (x0, y0) (x1, y1)) (expLinFit pw x' (x0, y0) (x1, y1)) :=
+  ⟨expLinFit_mono hp hsub h h0 hx h1, expLinFit_anti hp hsub h h0 hx h1⟩
+
+theorem linExpXYFit_toward {pw : K → K} (hp : PowLike pw) (hsub : ∀ t, 0 ≤ t → t ≤ 1 → pw t ≤ t)
+    {x x' x0 x1 : K} (y0 y1 : K) (h : x0 < x1) (h0 : x0 ≤ x) (hx : x ≤ x') (h1 : x' ≤ x1) :
+    Toward y0 y1 (linExpXYFit pw x (x0, y0) (x1, y1)) (linExpXYFit pw x' (x0, y0) (x1, y1)) :=
+  ⟨linExpXYFit_mono hp hsub h h0 hx h1, linExpXYFit_anti hp hsub h h0 hx h1⟩
+
 /-- a fit through two points of equal height is constant -/
 theorem linFit_const {x x0 x1 : K} (y : K) (h : x0 ≠ x1) : linFit x (x0, y) (x1, y) = y := by
   rw [linFit_closed]; ring
